@@ -18,6 +18,32 @@ func init() {
 				}
 			}
 			sort.Strings(names)
+			if nm := c.P.Func(G, "newMessage"); nm != nil {
+				paths, complete := c.guidedPaths(nm, &symEnv{}, map[string]bool{G + ".decodeControl": true}, 2000)
+				fmt.Printf("== newMessage: %d success paths complete=%v\n", len(paths), complete)
+				seen := map[string]bool{}
+				for _, p := range paths {
+					r := p.Res
+					line := fmt.Sprintf("   ret=%v undec=%q", r.retExpr, r.undec)
+					out := map[string]string{}
+					if len(r.retExpr) >= 1 && len(r.retExpr[0]) > 1 && r.retExpr[0][0] == '&' {
+						r.fr.fieldsOf(r.retExpr[0][1:], "", out, 0)
+					}
+					for _, k := range sortedKeys(out) {
+						line += fmt.Sprintf("\n      %s = %s", k, out[k])
+					}
+					for _, a := range p.Asserts {
+						line += "\n      " + a
+					}
+					for _, nt := range r.notes {
+						line += "\n      note: " + nt
+					}
+					if !seen[line] {
+						seen[line] = true
+						fmt.Println(line)
+					}
+				}
+			}
 			for _, n := range []string{"(*Request).NewResponse", "(*Request).NewModifyResponse", "(*Request).NewExtendedResponse", "(*Request).NewBindResponse", "(*Request).NewSearchDoneResponse", "(*Request).NewSearchResponseEntry"} {
 				f := c.P.Func(G, n)
 				w := &an.Walker{Fn: f}
